@@ -62,13 +62,17 @@ def _fills(prog, res, build):
   found = {}
   for st in ast.walk(build.node):
     if isinstance(st, ast.Assign) and isinstance(st.value, ast.ListComp) and \
-        isinstance(st.value.elt, ast.IfExp):
+        isinstance(st.value.elt, (ast.IfExp, ast.BoolOp)):
       name = dotted(st.targets[0])
       role = roles.role_of_name(name)
       if role is None:
         continue
       e = st.value.elt
-      fill = e.orelse if not is_none(e.orelse) else e.body
+      if isinstance(e, ast.BoolOp):
+        # `val or fill`: the fill is still found; N0 reports the truth test
+        fill = e.values[-1]
+      else:
+        fill = e.orelse if not is_none(e.orelse) else e.body
       sign = None
       f = fill
       neg = False
